@@ -15,6 +15,9 @@ from .consteval import Folder, SymStr, TOP, Unknown
 from .report import AnalysisError
 
 
+_COW_CACHE = {}
+
+
 class Outcome:
     __slots__ = ("term", "value", "env", "assumptions", "effects", "opaque")
 
@@ -94,21 +97,62 @@ class BlockEval:
             return [(bool(v), state)]
         except Unknown:
             pass
-        except AnalysisError:
-            raise
-        except Exception:
-            pass
         txt = ast.unparse(test)
         for t, v in assume:
             if t == txt:
                 return [(v, state)]
         return [(True, (env, assume + [(txt, True)], eff)), (False, (env, assume + [(txt, False)], eff))]
 
+    @staticmethod
+    def _cow(st, env):
+        """Copy-on-write: containers bound to names that this statement may mutate in place are copied first, so that
+        sibling states and memoised inputs never share a mutated object."""
+        from .consteval import MUTATORS
+        names = _COW_CACHE.get(id(st))
+        if names is None:
+            names = _COW_CACHE[id(st)] = BlockEval._cow_names(st, MUTATORS)
+        if not names:
+            return env
+        env = dict(env)
+        for nm in names:
+            v = env.get(nm)
+            if isinstance(v, list):
+                env[nm] = list(v)
+            elif isinstance(v, dict):
+                env[nm] = dict(v)
+            elif isinstance(v, set):
+                env[nm] = set(v)
+        return env
+
+    @staticmethod
+    def _cow_names(st, MUTATORS):
+        names = set()
+        for n in ast.walk(st):
+            if isinstance(n, ast.Call) and isinstance(n.func, ast.Attribute) and n.func.attr in MUTATORS and \
+                    isinstance(n.func.value, ast.Name):
+                names.add(n.func.value.id)
+            if isinstance(n, ast.Subscript) and isinstance(n.ctx, (ast.Store, ast.Del)) and isinstance(n.value, ast.Name):
+                names.add(n.value.id)
+            if isinstance(n, ast.AugAssign) and isinstance(n.target, ast.Name):
+                names.add(n.target.id)
+        return frozenset(names)
+
     def _stmt(self, st, state, outs):
         env, assume, eff = state
+        if not isinstance(st, (ast.If, ast.For, ast.While, ast.Try, ast.With)):
+            env = self._cow(st, env)
+            state = (env, assume, eff)
         if isinstance(st, ast.If):
             res = []
-            for val, s2 in self._test(st.test, state):
+            try:
+                branches = self._test(st.test, state)
+            except AnalysisError:
+                raise
+            except Exception as e:
+                outs.append(Outcome("raise", getattr(e, "name", type(e).__name__), env, assume,
+                                    eff + [("implicit-raise", ast.unparse(st.test))]))
+                return []
+            for val, s2 in branches:
                 res.extend(self._block(st.body if val else st.orelse, [(dict(s2[0]), list(s2[1]), list(s2[2]))], outs))
             return res
         if isinstance(st, ast.Return):
@@ -122,7 +166,7 @@ class BlockEval:
                 except AnalysisError:
                     raise
                 except Exception as e:
-                    outs.append(Outcome("raise", type(e).__name__, env, assume, eff + [("implicit-raise", ast.unparse(st.value))]))
+                    outs.append(Outcome("raise", getattr(e, 'name', type(e).__name__), env, assume, eff + [("implicit-raise", ast.unparse(st.value))]))
                     return []
             outs.append(Outcome("return", val, env, assume, eff, opaque))
             return []
@@ -162,7 +206,7 @@ class BlockEval:
             except AnalysisError:
                 raise
             except Exception as e:
-                outs.append(Outcome("raise", type(e).__name__, env, assume, eff + [("implicit-raise", ast.unparse(st.value))]))
+                outs.append(Outcome("raise", getattr(e, 'name', type(e).__name__), env, assume, eff + [("implicit-raise", ast.unparse(st.value))]))
                 return []
             targets = st.targets if isinstance(st, ast.Assign) else [st.target]
             env = dict(env)
@@ -217,8 +261,9 @@ class BlockEval:
         if isinstance(st, ast.Expr) and isinstance(st.value, ast.Call):
             c = st.value
             # mutation of a local container with foldable arguments
+            from .consteval import MUTATORS as _MUT
             if isinstance(c.func, ast.Attribute) and isinstance(c.func.value, ast.Name) and c.func.value.id in env and \
-                    isinstance(env[c.func.value.id], (list, dict, set)) and c.func.attr in ("append", "extend", "update", "add"):
+                    isinstance(env[c.func.value.id], (list, dict, set)) and c.func.attr in _MUT:
                 env = dict(env)
                 cont = env[c.func.value.id]
                 cont = list(cont) if isinstance(cont, list) else dict(cont) if isinstance(cont, dict) else set(cont)
@@ -230,6 +275,12 @@ class BlockEval:
                 except Unknown:
                     env[c.func.value.id] = TOP
                     eff = eff + [("opaque-mutation", ast.unparse(c)[:80])]
+                except AnalysisError:
+                    raise
+                except Exception as e:
+                    outs.append(Outcome("raise", getattr(e, "name", type(e).__name__), env, assume,
+                                        eff + [("implicit-raise", ast.unparse(c))]))
+                    return []
                 return [(env, assume, eff)]
             try:
                 self._fold(c, env)
@@ -239,7 +290,7 @@ class BlockEval:
             except AnalysisError:
                 raise
             except Exception as e:
-                outs.append(Outcome("raise", type(e).__name__, env, assume, eff + [("implicit-raise", ast.unparse(c))]))
+                outs.append(Outcome("raise", getattr(e, 'name', type(e).__name__), env, assume, eff + [("implicit-raise", ast.unparse(c))]))
                 return []
         if isinstance(st, (ast.For,)):
             try:
@@ -304,6 +355,116 @@ class BlockEval:
         return outs
 
 
+class FoldedRaise(Exception):
+    """An inlined callee raised (explicitly or implicitly) the exception class `name`."""
+
+    def __init__(self, name, where=""):
+        Exception.__init__(self, "%s raised in %s" % (name, where))
+        self.name = name
+
+
+class Interp(BlockEval):
+    """BlockEval that inlines calls of package functions (bounded depth) and models constructor calls of named
+    classes as tagged tuples.  An inlined call must have exactly one outcome (no unknown atoms); otherwise Unknown."""
+
+    def __init__(self, folder, classes=(), depth=4, max_states=256, extra_hook=None, atom_oracle=None):
+        BlockEval.__init__(self, folder, max_states=max_states, atom_oracle=atom_oracle, call_hook=self._hook)
+        self.classes = set(classes)
+        self.depth = depth
+        self._level = 0
+        self.extra_hook = extra_hook
+        self.inlined = set()
+
+    def _hook(self, call, env):
+        from .consteval import FuncRef, Opaque
+        if self.extra_hook is not None:
+            try:
+                return self.extra_hook(call, env)
+            except Unknown:
+                pass
+        if isinstance(call.func, ast.Name) and call.func.id == "cast" and len(call.args) == 2:
+            return self.folder.expr(call.args[1], env)
+        try:
+            f = self.folder.expr(call.func, env)
+        except Unknown:
+            # Name bound to an opaque object
+            f = env.get(call.func.id) if isinstance(call.func, ast.Name) else None
+            if f is None:
+                raise
+        if isinstance(f, Opaque) and not isinstance(f, FuncRef) and f.what.startswith("ClassDef ") and \
+                f.what.split()[1] in self.classes:
+            args, kw = self._args(call, env)
+            return ("<%s>" % f.what.split()[1],) + tuple(args) + tuple(sorted(kw.items()))
+        if not isinstance(f, FuncRef) or f.simple_return() is not None:
+            raise Unknown("not an inlinable function")
+        if self._level >= self.depth:
+            raise Unknown("inlining depth")
+        args, kw = self._args(call, env)
+        cenv = dict(self.folder.module(f.mod))
+        bind_arguments(self.folder, f.node, args, kw, cenv)
+        self._level += 1
+        try:
+            outs = self.run_function(f.node, cenv)
+        finally:
+            self._level -= 1
+        self.inlined.add(f.name)
+        if len(outs) != 1 or outs[0].assumptions or outs[0].opaque:
+            raise Unknown("inlined call of %s has %d outcomes / unknown atoms: %s" % (f.name, len(outs), outs[:3]))
+        o = outs[0]
+        if o.term == "raise":
+            raise FoldedRaise(o.value, f.name)
+        if o.value is TOP:
+            raise Unknown("inlined call returns unknown")
+        return o.value
+
+    def _args(self, call, env):
+        args = []
+        for a in call.args:
+            if isinstance(a, ast.Starred):
+                args.extend(self._fold(a.value, env))
+            else:
+                args.append(self._fold(a, env))
+        kw = {}
+        for k in call.keywords:
+            if k.arg is None:
+                kw.update(self._fold(k.value, env))
+            else:
+                kw[k.arg] = self._fold(k.value, env)
+        return args, kw
+
+
+def bind_arguments(folder, fnode, args, kw, env):
+    ps = fnode.args
+    names = [p.arg for p in ps.posonlyargs + ps.args]
+    defaults = dict(zip(names[::-1], ps.defaults[::-1]))
+    kw = dict(kw)
+    for i, nm in enumerate(names):
+        if i < len(args):
+            env[nm] = args[i]
+        elif nm in kw:
+            env[nm] = kw.pop(nm)
+        elif nm in defaults:
+            env[nm] = folder.expr(defaults[nm], env)
+        else:
+            raise FoldedRaise("TypeError", "missing argument %s" % nm)
+    rest = args[len(names):]
+    if ps.vararg:
+        env[ps.vararg.arg] = tuple(rest)
+    elif rest:
+        raise FoldedRaise("TypeError", "too many positional arguments")
+    for p, d in zip(ps.kwonlyargs, ps.kw_defaults):
+        if p.arg in kw:
+            env[p.arg] = kw.pop(p.arg)
+        elif d is not None:
+            env[p.arg] = folder.expr(d, env)
+        else:
+            raise FoldedRaise("TypeError", "missing keyword-only argument")
+    if ps.kwarg:
+        env[ps.kwarg.arg] = dict(kw)
+    elif kw:
+        raise FoldedRaise("TypeError", "unexpected keyword %s" % sorted(kw))
+
+
 _EXC_PARENTS = {
     "UnicodeDecodeError": ("UnicodeError", "ValueError", "Exception", "BaseException"),
     "UnicodeEncodeError": ("UnicodeError", "ValueError", "Exception", "BaseException"),
@@ -346,8 +507,6 @@ def _matching_handler(handlers, raised):
 
 def _fold_with_hook(folder, node, env, hook):
     """Fold an expression letting `hook` decide calls the folder cannot (e.g. named atoms like decodable(seq, enc))."""
-    class _H(Folder):
-        pass
     # light-weight: temporarily wrap folder.expr for Call nodes
     orig = folder.expr
 
@@ -358,8 +517,12 @@ def _fold_with_hook(folder, node, env, hook):
             except Unknown:
                 pass
         return orig(n, e)
+    if getattr(folder, "_hooked", None) is hook:
+        return folder.expr(node, env)     # already hooked by an enclosing fold (inlined callee)
     folder.expr = expr
+    folder._hooked = hook
     try:
-        return orig(node, env)
+        return expr(node, env)
     finally:
         folder.expr = orig
+        folder._hooked = None
